@@ -77,6 +77,7 @@ func main() {
 	noEvidence := flag.Bool("no-evidence", false, "do not write evidence (used by the mutant sweep)")
 	overlayFile := flag.String("overlay", "", "JSON file {path: content} applied as an in-memory overlay (mutant sweep)")
 	listObl := flag.Bool("v", false, "print every obligation")
+	dumpRef := flag.Bool("dump-reference", false, "write checker/reference/functions.json (names, signatures, callee sets of the current tree) and exit; done by hand after the rule instances were confirmed on a tree, never by a check")
 	describe := flag.Bool("describe", false, "print the registered properties (id, title, explanation, assumptions) as JSON and exit")
 	flag.Parse()
 	verifDir = *vdir
@@ -109,6 +110,17 @@ func main() {
 		} else {
 			os.Exit(0)
 		}
+	}
+	if *dumpRef {
+		c, err := LoadMod(*repo, nil, false, modPath, loadPatterns, guardSpecs)
+		if err == nil {
+			err = dumpReference(c)
+		}
+		if err != nil {
+			fmt.Println("dump-reference:", err)
+			os.Exit(2)
+		}
+		os.Exit(0)
 	}
 	var ids []string
 	if *prop == "all" {
@@ -181,6 +193,9 @@ func main() {
 				}
 			}()
 			runSelfTests(c, id)
+			for _, n := range renameNotes {
+				c.note("renamed function recognised against checker/reference/functions.json: %s", n)
+			}
 			if c.vtaStats != "" {
 				c.note("%s", c.vtaStats)
 			}
@@ -318,8 +333,12 @@ func writeEvidence(c *Ctx, p *propDef, tier string, seed int, wall float64, nVio
 		c.notes = []string{}
 	}
 	fnSet := map[string]bool{}
+	dirSet := map[string]bool{}
 	for _, o := range c.Obls {
 		fnSet[o.Func] = true
+		if i := strings.Index(o.Pos, ".go:"); i > 0 {
+			dirSet[o.Pos[:i+3]] = true
+		}
 	}
 	nPk := 0
 	for _, pk := range c.Pkgs {
@@ -347,6 +366,7 @@ func writeEvidence(c *Ctx, p *propDef, tier string, seed int, wall float64, nVio
 			"packages_loaded":       nPk,
 			"functions_in_module":   len(c.SrcFns),
 			"functions_with_oblig.": len(fnSet),
+			"files_with_obligations": sortedKeys(dirSet),
 			"checker_cmd":           "/verif/bin/galaxycheck -prop " + p.ID + " -tier " + tier,
 			"trusted_base":          []string{"go/types (go1.23)", "golang.org/x/tools v0.29.0 go/packages + go/ssa", "the rule tables in /verif/checker/rules_*.go and lock.go (guardSpecs)"},
 			"notes":                 c.notes,
@@ -360,4 +380,13 @@ func writeEvidence(c *Ctx, p *propDef, tier string, seed int, wall float64, nVio
 	_ = os.MkdirAll(dir, 0755)
 	data, _ := json.MarshalIndent(ev, "", " ")
 	_ = os.WriteFile(filepath.Join(dir, p.ID+".json"), data, 0644)
+}
+
+func sortedKeys(m map[string]bool) []string {
+	out := []string{}
+	for k := range m {
+		out = append(out, k)
+	}
+	sort.Strings(out)
+	return out
 }
